@@ -85,7 +85,8 @@ Definition req_receiver_send_data (last : bool) (c : connp) : st * connp :=
   | Some h =>
     let k := c_in c in
     (* data = in_current_data + receiver_offset: a NULL / stale chunk with a non-zero length is an invalid read *)
-    let c := match k_data k with None => if (k_receiver k <? k_read k)%nat then c <| c_fault := true |> else c | Some _ => c end in
+    let have := match cur_slice k (k_receiver k) (k_read k) with Some d => length d | None => O end in
+    let c := if (have <? k_read k - k_receiver k)%nat then c <| c_fault := true |> else c in
     match run_data_hook h (in_txi c) (cur_slice k (k_receiver k) (k_read k)) last c with
     | (ST_OK, c) => (ST_OK, c <| c_in := (c_in c) <| k_receiver := k_read (c_in c) |> |>)
     | r => r
